@@ -1926,18 +1926,25 @@ class ExecutionTracer(AbstractExecutionTracer):  # noqa: PLR0904
         # This would lead to an infinite recursion and thus a crash of the program
         if attribute in {"__getattr__", "__getitem__"}:
             return -1
-        # Check if the dictionary of the object on which lookup is performed
-        if (
-            hasattr(object_type, "__dict__")
-            and object_type.__dict__
-            and attribute in object_type.__dict__
-        ):
+        # Check if the dictionary of the object on which lookup is performed. The
+        # dictionary and the slots are looked up without `getattr`/`hasattr`, because
+        # these run `__getattr__`/`__getattribute__` of the subject, which may raise
+        # arbitrary exceptions for names it does not know, e.g., `__slots__`.
+        try:
+            object_dict = object.__getattribute__(object_type, "__dict__")
+        except AttributeError:
+            object_dict = None
+        if object_dict and attribute in object_dict:
             return id(object_type)
-        if (
-            hasattr(object_type, "__slots__")
-            and object_type.__slots__
-            and attribute in object_type.__slots__
-        ):
+        object_slots = next(
+            (
+                clss.__dict__["__slots__"]
+                for clss in type(object_type).__mro__
+                if "__slots__" in clss.__dict__
+            ),
+            None,
+        )
+        if object_slots and attribute in object_slots:
             return id(object_type)
 
         # Check if attribute in MRO hierarchy (no need for data descriptor)
